@@ -120,6 +120,8 @@ func BuildPattern(cache *ChunkCache, patternCache map[string]*Pattern, fuzzy boo
 			}
 		}
 	} else {
+		// We should not sort the result if the query is empty
+		sortable = len(asString) > 0
 		lowerString := strings.ToLower(asString)
 		normalize = normalize &&
 			lowerString == string(algo.NormalizeRunes([]rune(lowerString)))
